@@ -1079,12 +1079,16 @@ func (r *run) checkReceiver(m *Model) {
 			// exactly one grant of this subscriber matches, and it certainly
 			// covers every window
 			var match []*Grant
+			aliased := hasEmptyLevel(topic)
 			for _, g := range grantsBy[sk] {
+				if hasEmptyLevel(g.Filter) {
+					aliased = true // (known defect: such filters match other topics too)
+				}
 				if refmqtt.ValidFilter(g.Filter) && refmqtt.Match(g.Filter, topic) {
 					match = append(match, g)
 				}
 			}
-			if len(match) != 1 || hasEmptyLevel(match[0].Filter) || hasEmptyLevel(topic) {
+			if len(match) != 1 || aliased {
 				continue
 			}
 			g := match[0]
